@@ -111,7 +111,7 @@ def build_case(ch):
     if ch.below(3) == 1:
         opts += ['-t', str(ch.pick((1, 2, 4)))]
     if ch.below(3) == 1:
-        opts += ['-d', 'gnu-ld']
+        opts += ['-d', ch.pick(('gnu-ld', 'gnu-ld', 'sectcreate1', 'sectcreate2'))]
     if ch.below(4) == 1:
         opts.append('-p')
     if ch.below(4) == 1:
@@ -299,8 +299,10 @@ def task(wid, seed, params):
             classes.append('clean_with_near_misses')
         if case['form'] != 1 and case['decoys']['cwd']:
             classes.append('relative_output_decoys_in_cwd')
-        if 'gnu-ld' in case['opts']:
+        if 'gnu-ld' in case['opts'] or 'sectcreate1' in case['opts'] or 'sectcreate2' in case['opts']:
             classes.append('gnu-ld')
+        if 'sectcreate1' in case['opts'] or 'sectcreate2' in case['opts']:
+            classes.append('sectcreate')
         if case['outdir'] != case.get('outname', 'out'):
             classes.append('nested_output_dir')
         if case.get('outname', 'out') != 'out':
